@@ -20,6 +20,18 @@ import (
 	"github.com/spf13/afero"
 )
 
+// lba maps the specification's block numbers to the 64-bit field: TLC's integers are 32 bit wide, so the two values with the top bit
+// set are written -1 (2^64 - 1) and -2 (2^63)
+func lba(v int) uint64 {
+	switch v {
+	case -1:
+		return ^uint64(0)
+	case -2:
+		return 1 << 63
+	}
+	return uint64(v)
+}
+
 func init() { families["boot"] = runBoot }
 
 const globalGUIDText = "8be4df61-93ca-11d2-aa0d-00e098032b8c"
@@ -80,9 +92,9 @@ func encodeNode(n M) []byte {
 		hdr(4, 1, 42)
 		b.Write(le32(uint32(num(n, "part"))))
 		var q [8]byte
-		binary.LittleEndian.PutUint64(q[:], uint64(num(n, "start")))
+		binary.LittleEndian.PutUint64(q[:], lba(num(n, "start")))
 		b.Write(q[:])
-		binary.LittleEndian.PutUint64(q[:], uint64(num(n, "size")))
+		binary.LittleEndian.PutUint64(q[:], lba(num(n, "size")))
 		b.Write(q[:])
 		b.Write(hdSig(str(n, "sig")))
 		b.Write([]byte{byte(num(n, "format")), byte(num(n, "sigtype"))})
@@ -259,8 +271,8 @@ func runBoot(sc M) {
 						fail("node %d decoded as %+v, want %v", k, d, n)
 					}
 				case device.HardDriveMediaDevicePath:
-					if str(n, "kind") != "hd" || int(d.PartitionNumber) != num(n, "part") || binary.LittleEndian.Uint64(d.PartitionStart[:]) != uint64(num(n, "start")) ||
-						binary.LittleEndian.Uint64(d.PartitionSize[:]) != uint64(num(n, "size")) || !bytes.Equal(d.PartitionSignature[:], hdSig(str(n, "sig"))) ||
+					if str(n, "kind") != "hd" || int(d.PartitionNumber) != num(n, "part") || binary.LittleEndian.Uint64(d.PartitionStart[:]) != lba(num(n, "start")) ||
+						binary.LittleEndian.Uint64(d.PartitionSize[:]) != lba(num(n, "size")) || !bytes.Equal(d.PartitionSignature[:], hdSig(str(n, "sig"))) ||
 						int(d.PartitionFormat) != num(n, "format") || int(d.SignatureType) != num(n, "sigtype") || d.Type != 4 || d.SubType != 1 {
 						fail("node %d decoded as %+v, want %v", k, d, n)
 					}
@@ -269,9 +281,9 @@ func runBoot(sc M) {
 						// a GUID signature is written as GUID text: 36 characters, five groups of 8-4-4-4-12 hexadecimal digits
 						sigText = `[0-9a-fA-F]{8}-[0-9a-fA-F]{4}-[0-9a-fA-F]{4}-[0-9a-fA-F]{4}-[0-9a-fA-F]{12}`
 					}
-					re := regexp.MustCompile(fmt.Sprintf(`^HD\(%d,%s,%s,0x%x,0x%x\)$`, num(rnd, "part"), str(rnd, "type"), sigText, num(rnd, "start"), num(rnd, "size")))
+					re := regexp.MustCompile(fmt.Sprintf(`^HD\(%d,%s,%s,0x%x,0x%x\)$`, num(rnd, "part"), str(rnd, "type"), sigText, lba(num(rnd, "start")), lba(num(rnd, "size"))))
 					if txt := d.Format(); !re.MatchString(txt) {
-						fail("node %d renders as %q, specification HD(%d,%s,<sig>,0x%x,0x%x)", k, txt, num(rnd, "part"), str(rnd, "type"), num(rnd, "start"), num(rnd, "size"))
+						fail("node %d renders as %q, specification HD(%d,%s,<sig>,0x%x,0x%x)", k, txt, num(rnd, "part"), str(rnd, "type"), lba(num(rnd, "start")), lba(num(rnd, "size")))
 					}
 				case device.FileTypeMediaDevicePath:
 					want := cpsString(list(n, "path"))
